@@ -1,5 +1,5 @@
 (* C10 — HDLC receive path yields the same frames however the byte stream is chunked. *)
-From Dlms Require Import Base FrameModel HdlcConnModel HdlcChunkProofs.
+From Dlms Require Import Base FrameModel HdlcConnModel HdlcScript HdlcChunkProofs HdlcStreamProofs.
 
 (* For every byte string F the state's parser accepts as frame f (payload bytes arbitrary, so any
    density of 0x7E, also as control byte), every link state in which that frame may be received,
@@ -35,4 +35,57 @@ Example C10_nonvacuous :
     = [[ENeedData; ENeedData]; [ENeedData; ENeedData]; [EFrame KInfo ex_f]].
 Proof. split; [vm_compute; reflexivity|]. split; [vm_compute; reflexivity|]. split; vm_compute; reflexivity. Qed.
 
+(* Streams of any number of frames.  `items` lists the frames with the bytes each contributes to
+   the stream (`wire`: the whole frame, or the frame without its opening flag when that flag is
+   shared with the previous frame's closing flag); `chain l items l'` says that each frame is one
+   the parser of the link state at that point accepts and the link procedure admits, with the
+   receive-ready frame sent between segments as the transport does (`between`).  Then for EVERY
+   partition of the stream into non-empty chunks, polling until nothing is pending after each
+   chunk (`feedm`, which continues after a delivered frame): nothing is ever raised; after the
+   first j chunks exactly those frames have been delivered - in order, once - whose last byte lies
+   within the bytes handed over so far (`deliverable`: never early, never late); after the last
+   chunk all frames have been delivered and the buffer is empty with the search position reset. *)
+Theorem C10_any_chunking_stream : forall l items l' chunks, chain l items l' ->
+  Forall (fun ch => ch <> []) chunks -> concat chunks = stream items ->
+  exists outs, feedm {| c_link := l; c_buf := []; c_pos := 1 |} chunks = (outs, {| c_link := l'; c_buf := []; c_pos := 1 |})
+    /\ length outs = length chunks
+    /\ keys (concat outs) = Some (map key items)
+    /\ forall j, (j <= length chunks)%nat ->
+         keys (concat (firstn j outs)) = Some (map key (deliverable (length (concat (firstn j chunks))) items)).
+Proof. exact chunking_stream. Qed.
+
+(* the polling loop the correspondence check runs on model and implementation (HdlcScript.drain)
+   is `pollm`, printed *)
+Theorem C10_script_polling : forall fuel c cl sv acc es c', pollm fuel c = (es, c') ->
+  drain fuel c cl sv acc = (acc ++ map v_event es, c').
+Proof. exact drain_pollm. Qed.
+
+(* non-vacuity: two information frames sharing a flag; the first one's control byte and payload
+   contain the flag byte; a chunk boundary inside each frame *)
+Definition ex_F1 : bytes := [126; 168; 12; 33; 2; 35; 126; 215; 148; 126; 1; 131; 135; 126].
+Definition ex_F2 : bytes := [126; 160; 13; 33; 2; 35; 112; 181; 87; 2; 126; 126; 226; 138; 126].
+Definition ex_f1 : frame :=
+  {| f_dest := (16, None, false); f_src := (1, Some 17, true); f_payload := Some [126; 1];
+     f_segmented := true; f_final := true; f_ssn := 7; f_rsn := 3 |}.
+Definition ex_f2 : frame :=
+  {| f_dest := (16, None, false); f_src := (1, Some 17, true); f_payload := Some [2; 126; 126];
+     f_segmented := false; f_final := true; f_ssn := 0; f_rsn := 3 |}.
+Definition ex_items : list item :=
+  [ {| it_pk := KInfo; it_F := ex_F1; it_f := ex_f1; it_shared := false |};
+    {| it_pk := KInfo; it_F := ex_F2; it_f := ex_f2; it_shared := true |} ].
+Example C10_stream_nonvacuous :
+  (exists l', chain ex_l ex_items l') /\ stream ex_items = ex_F1 ++ tl ex_F2 /\
+  map keys (fst (feedm {| c_link := ex_l; c_buf := []; c_pos := 1 |}
+         [firstn 5 (stream ex_items); firstn 12 (skipn 5 (stream ex_items)); skipn 17 (stream ex_items)]))
+    = [Some []; Some [(KInfo, ex_f1)]; Some [(KInfo, ex_f2)]].
+Proof.
+  split.
+  - eexists. eapply chain_cons; [vm_compute; reflexivity|vm_compute; reflexivity|vm_compute; reflexivity|].
+    eapply chain_cons; [vm_compute; reflexivity|vm_compute; reflexivity|vm_compute; reflexivity|].
+    apply chain_nil.
+  - split; vm_compute; reflexivity.
+Qed.
+
+Print Assumptions C10_any_chunking_stream.
+Print Assumptions C10_script_polling.
 Print Assumptions C10_any_chunking_one_frame.
